@@ -2225,6 +2225,95 @@ void vf_slice_9()
 #if VF_IN_SLICE(10)
 namespace
 {
+// ---- an exact scalar whose multiplication is NOT commutative (upper triangular 2x2 integer matrices as numbers): the
+// module laws distinguish s * x from x * s.  "scalar * is computed per component": (s * M)(i,j) = s * M(i,j) and
+// (M * s)(i,j) = M(i,j) * s, the matrix product is sum_k A(i,k) * B(k,j) with the factors in this order.
+struct ncs
+{
+  long a = 0, b = 0, d = 0; // [[a, b], [0, d]]
+  ncs() = default;
+  ncs(long a_, long b_, long d_) : a(a_), b(b_), d(d_) {}
+  friend ncs operator+(ncs const &x, ncs const &y) { return ncs(x.a + y.a, x.b + y.b, x.d + y.d); }
+  friend ncs operator-(ncs const &x, ncs const &y) { return ncs(x.a - y.a, x.b - y.b, x.d - y.d); }
+  friend ncs operator*(ncs const &x, ncs const &y) { return ncs(x.a * y.a, x.a * y.b + x.b * y.d, x.d * y.d); }
+  ncs &operator+=(ncs const &y) { return *this = *this + y; }
+  ncs &operator-=(ncs const &y) { return *this = *this - y; }
+  ncs &operator*=(ncs const &y) { return *this = *this * y; }
+  friend bool operator==(ncs const &x, ncs const &y) { return x.a == y.a && x.b == y.b && x.d == y.d; }
+  friend bool operator!=(ncs const &x, ncs const &y) { return !(x == y); }
+};
+inline std::string show_ncs(ncs const &x) { return "[" + std::to_string(x.a) + "," + std::to_string(x.b) + ";" + std::to_string(x.d) + "]"; }
+}
+namespace fcppt
+{
+template <>
+struct make_literal<ncs, void>
+{
+  using decorated_type = ncs;
+  template <typename Arg>
+  static decorated_type get(Arg const v)
+  {
+    return ncs(static_cast<long>(v), 0, static_cast<long>(v));
+  }
+};
+}
+namespace
+{
+void noncommutative_scalars()
+{
+  std::string const e = "matrix<noncommutative-scalar,2x2>";
+  if (!vf::entry_enabled(e))
+    return;
+  vf::set_entry(e);
+  namespace mx = fm::matrix;
+  using M = mx::static_<ncs, 2, 2>;
+  using V = fm::vector::static_<ncs, 2>;
+  std::uint64_t const n = vf::tier<std::uint64_t>(600, 60000);
+  for (std::uint64_t i = 0; i < n; ++i)
+  {
+    if (!vf::mine(i))
+      continue;
+    vf::rng g(vf::seed_for(e, i));
+    auto const rnd = [&g] { return ncs(g.range(-4, 4), g.range(-4, 4), g.range(-4, 4)); };
+    ncs const sc = rnd();
+    std::array<std::array<ncs, 2>, 2> pa{{{rnd(), rnd()}, {rnd(), rnd()}}}, pb{{{rnd(), rnd()}, {rnd(), rnd()}}};
+    std::array<ncs, 2> pu{rnd(), rnd()};
+    if (!vf::begin_case("i=%llu s=%s A=[%s %s / %s %s]", static_cast<unsigned long long>(i), show_ncs(sc).c_str(), show_ncs(pa[0][0]).c_str(),
+                        show_ncs(pa[0][1]).c_str(), show_ncs(pa[1][0]).c_str(), show_ncs(pa[1][1]).c_str()))
+      continue;
+    vf::sample_case(1);
+    vf::note_distinct(vf::hash_mix(vf::hash_str(e), vf::hash_mix(static_cast<std::uint64_t>(sc.a * 81 + sc.b * 9 + sc.d), vf::hash_bytes(&pa, sizeof pa))));
+    M const A(mx::row(pa[0][0], pa[0][1]), mx::row(pa[1][0], pa[1][1])), B(mx::row(pb[0][0], pb[0][1]), mx::row(pb[1][0], pb[1][1]));
+    V const u(pu[0], pu[1]);
+    auto const bad = [&](char const *op, std::string const &d) { vf::violation(std::string(op) + "<noncommutative-scalar,2x2>/value", "mismatch", d + " case: " + vf::current_case()); };
+    M const sA = sc * A, As = A * sc, AB = A * B;
+    V const su = sc * u, us = u * sc, Au = A * u;
+    bool commutes = true;
+    for (std::size_t r = 0; r < 2; ++r)
+    {
+      for (std::size_t c = 0; c < 2; ++c)
+      {
+        commutes = commutes && sc * pa[r][c] == pa[r][c] * sc;
+        if (sA.get_unsafe(r).get_unsafe(c) != sc * pa[r][c])
+          bad("matrix::operator*(scalar,matrix)", "element (" + std::to_string(r) + "," + std::to_string(c) + ") is not s * M(i,j)");
+        if (As.get_unsafe(r).get_unsafe(c) != pa[r][c] * sc)
+          bad("matrix::operator*(matrix,scalar)", "element (" + std::to_string(r) + "," + std::to_string(c) + ") is not M(i,j) * s");
+        if (AB.get_unsafe(r).get_unsafe(c) != pa[r][0] * pb[0][c] + pa[r][1] * pb[1][c])
+          bad("matrix::operator*(matrix,matrix)", "element (" + std::to_string(r) + "," + std::to_string(c) + ") is not sum_k A(i,k) * B(k,j)");
+      }
+      if (su.get_unsafe(r) != sc * pu[r])
+        bad("vector::operator*(scalar,vector)", "component " + std::to_string(r) + " is not s * v(i)");
+      if (us.get_unsafe(r) != pu[r] * sc)
+        bad("vector::operator*(vector,scalar)", "component " + std::to_string(r) + " is not v(i) * s");
+      if (Au.get_unsafe(r) != pa[r][0] * pu[0] + pa[r][1] * pu[1])
+        bad("matrix::operator*(matrix,vector)", "component " + std::to_string(r) + " is not sum_k A(i,k) * v(k)");
+    }
+    VF_COUNT("noncommutative/cases");
+    if (!commutes)
+      VF_COUNT("noncommutative/scalar-does-not-commute-with-an-element");
+  }
+}
+
 // ---- rectangular shapes: identity (ones exactly where row == column), null, fill, init, transpose, products between
 // compatible shapes, matrix * vector, comparison - against plain arrays.  Tall, wide, one column, one row.
 template <std::size_t R, std::size_t C>
@@ -2333,6 +2422,7 @@ void vf_slice_10()
   random_vectors<dim_kind, vf::heavy, 2>();
   rect_shapes<int>();
   rect_shapes<long>();
+  noncommutative_scalars();
   vf::count("heavy/constructed", vf::heavy_stats().constructed);
   vf::count("heavy/moved", vf::heavy_stats().moved);
   vf::count("heavy/moved-from-reads(observed)", vf::heavy_stats().moved_from_reads);
@@ -2370,7 +2460,7 @@ void body()
         "storage/dim/view,view", "storage/dim/static,view", "storage/dim/view,static", "vector/dot/nonzero",
         "vector/cross/nonzero", "vector/cross/zero", "cmp/equal", "cmp/less", "cmp/greater",
         "cmp/differ-in-last-component-only", "cmp/equal-prefix-then-different",
-        "cmp/later-component-ordered-the-other-way", "storage/vector/raw_view", "observed/calls", "rect/tall-by-two-or-more"})
+        "cmp/later-component-ordered-the-other-way", "storage/vector/raw_view", "observed/calls", "rect/tall-by-two-or-more", "noncommutative/scalar-does-not-commute-with-an-element"})
     vf::require_bucket(b);
   vf_slice_0();
   vf_slice_1();
